@@ -1039,7 +1039,60 @@ async fn run(_tier: Tier) {
                 // unrelated small update committed afterwards gives exactly
                 // the version the secondary held plus that update.
                 let base = complete.iter().find(|c| walk_str(&content_as_walk(c)) == seen).cloned().unwrap();
-                followup(&secondary, &base, fault).await;
+                if sim::chance("after_failure.clean_retry", 1, 2) {
+                    // ---- or the transfer is simply tried again, this time
+                    // over a link that delivers everything: a full transfer of
+                    // the primary's current version in a fresh packaging. It
+                    // succeeds and the secondary equals the primary, whatever
+                    // the failed attempt left behind.
+                    sim::stat("probe.clean_retry_after_failed_transfer");
+                    let mut body: Vec<RecSpec> = vec![soa_spec(serial_of(&contents[j]).unwrap())];
+                    body.extend(content_records(&contents[j]).into_iter().filter(|r| r.rtype != Rtype::SOA));
+                    body.push(soa_spec(serial_of(&contents[j]).unwrap()));
+                    let msgs = package(Rtype::AXFR, sim::draw("retry.id", 65536) as u16, &body, sim::chance("retry.compress", 1, 2));
+                    let mut interpreter = XfrResponseInterpreter::new();
+                    let mut updater: ZoneUpdater = match tokio::time::timeout(std::time::Duration::from_secs(30), ZoneUpdater::new(secondary.clone())).await {
+                        Ok(Ok(u)) => u,
+                        _ => {
+                            sim::violation(P, "liveness", "retry-never-gets-the-zone-after-a-failed-transfer".to_string(), format!("after a transfer that failed (fault {}) a new updater for the zone was not available within 30 virtual seconds", fault));
+                            return;
+                        }
+                    };
+                    let mut done = false;
+                    let mut err: Option<String> = None;
+                    'retry: for w in &msgs {
+                        let msg = Message::from_octets(Bytes::from(w.bytes.clone())).expect("message");
+                        let it = match interpreter.interpret_response(msg) {
+                            Ok(it) => it,
+                            Err(e) => {
+                                err = Some(format!("interpreter: {}", e));
+                                break;
+                            }
+                        };
+                        for u in it {
+                            match u {
+                                Ok(u) => {
+                                    done |= matches!(u, ZoneUpdate::Finished(_));
+                                    if let Err(e) = updater.apply(u).await {
+                                        err = Some(format!("updater: {}", e));
+                                        break 'retry;
+                                    }
+                                }
+                                Err(e) => {
+                                    err = Some(format!("iteration: {:?}", e));
+                                    break 'retry;
+                                }
+                            }
+                        }
+                    }
+                    drop(updater);
+                    let now = walk_str(&walk_zone(secondary.read().as_ref()));
+                    if err.is_some() || !done || now != walk_str(&content_as_walk(&contents[j])) {
+                        sim::violation(P, "fidelity", "clean-retry-after-a-failed-transfer-goes-wrong".to_string(), format!("after a transfer that failed (fault {}), a clean full transfer of the primary's current version ended with {:?} (finished: {}); secondary equals primary: {}", fault, err, done, now == walk_str(&content_as_walk(&contents[j]))));
+                    }
+                } else {
+                    followup(&secondary, &base, fault).await;
+                }
             }
             return;
         }
